@@ -31,6 +31,7 @@ for name in sorted(os.listdir(SEEDED)):
             res[p] = entry
     finally:
         subprocess.run(["git", "-C", "/repo", "checkout", "--", "."], check=True)
+        subprocess.run(["git", "-C", "/repo", "clean", "-fdq", "src", "tests"], check=True)
     results[name] = res
     print(name, {p: (e["rc"], e.get("kind")) for p, e in res.items()}, flush=True)
     json.dump(results, open(os.path.join(SEEDED, "RESULTS.json"), "w"), indent=1)
